@@ -330,17 +330,33 @@ pub fn postcondition(b: &Document, a: &Document, start: u32) -> Vec<(String, Str
     o.fails
 }
 
+/// catch a panic without touching the (process-global) panic hook: `common::guarded` swaps the hook on every call, which
+/// races between rayon workers; `quiet` installs a silent hook once around the whole parallel run instead
+fn catch<T>(f: impl FnOnce() -> T) -> Result<T, String> {
+    std::panic::catch_unwind(std::panic::AssertUnwindSafe(f)).map_err(|e| {
+        if let Some(s) = e.downcast_ref::<String>() { s.clone() } else if let Some(s) = e.downcast_ref::<&str>() { s.to_string() } else { "panic".to_string() }
+    })
+}
+
+fn quiet<T>(f: impl FnOnce() -> T) -> T {
+    let prev = std::panic::take_hook();
+    std::panic::set_hook(Box::new(|_| {}));
+    let r = f();
+    std::panic::set_hook(prev);
+    r
+}
+
 /// run the real library on one case and evaluate the postcondition
 pub fn check_case(c: &Case) -> Vec<(String, String)> {
     let before = build_doc(c);
     let mut after = before.clone();
     let start = c.start;
-    let r = guarded(std::panic::AssertUnwindSafe(|| {
+    let r = catch(|| {
         if start == 1 { after.renumber_objects(); } else { after.renumber_objects_with(start); }
-    }));
+    });
     let mut fails = match r {
         Err(p) => vec![("no-panic".to_string(), format!("renumber_objects_with({}) panicked: {}", start, p))],
-        Ok(()) => match guarded(std::panic::AssertUnwindSafe(|| postcondition(&before, &after, start))) {
+        Ok(()) => match catch(|| postcondition(&before, &after, start)) {
             Ok(f) => f,
             Err(p) => vec![("oracle-no-panic".to_string(), format!("evaluating the postcondition panicked: {}", p))],
         },
@@ -603,6 +619,18 @@ fn extreme_starts(n: usize) -> Vec<(u32, &'static str)> {
     v
 }
 
+/// diagnostic only: with C10_DUMP=<file> every failing (obligation, input) is appended as a JSON line (the report keeps 3 per obligation)
+fn dump_failures(fails: &[(String, String)], input: &Value) {
+    use std::io::Write;
+    static SINK: std::sync::OnceLock<Option<std::sync::Mutex<std::fs::File>>> = std::sync::OnceLock::new();
+    let sink = SINK.get_or_init(|| std::env::var("C10_DUMP").ok().and_then(|p| std::fs::File::create(p).ok()).map(std::sync::Mutex::new));
+    if let Some(m) = sink {
+        if let Ok(mut f) = m.lock() {
+            let _ = writeln!(f, "{}", json!({"obligations": fails.iter().map(|x| x.0.clone()).collect::<Vec<_>>(), "details": fails.iter().map(|x| x.1.clone()).collect::<Vec<_>>(), "input": input}));
+        }
+    }
+}
+
 fn eval(c: &Case, rep: &mut Report) {
     let n = c.objects.len() as u64;
     let mut nums: Vec<u64> = c.objects.iter().map(|(id, _)| id.0 as u64).collect();
@@ -612,6 +640,7 @@ fn eval(c: &Case, rep: &mut Report) {
     let fails = check_case(c);
     if !fails.is_empty() {
         let input = case_json(c);
+        dump_failures(&fails, &input);
         for (ob, d) in fails { rep.fail(&ob, d.clone(), input.clone(), d); }
     }
 }
@@ -681,10 +710,12 @@ pub fn run(thorough: bool) -> Report {
         for idset in 0..3 { for perm in permutations(tp.objs.len()) { blocks.push(Block::A { t: ti, idset, perm, extreme: false }); } }
     }
 
-    let total = blocks
-        .par_iter()
-        .map(|b| run_block(b, &templates, &subs, &ext_subs, &starts_a))
-        .reduce(|| Report::new("", false), |mut x, y| { x.merge(y); x });
+    let total = quiet(|| {
+        blocks
+            .par_iter()
+            .map(|b| run_block(b, &templates, &subs, &ext_subs, &starts_a))
+            .reduce(|| Report::new("", false), |mut x, y| { x.merge(y); x })
+    });
 
     let mut bound = String::new();
     bound.push_str("Every case = a concrete document + start value; renumber_objects_with(start) (renumber_objects for start 1) run on the real crate and checked against an independent renaming-discovery oracle. ");
@@ -703,6 +734,6 @@ pub fn run(thorough: bool) -> Report {
 
 pub fn replay(v: &Value) -> Result<(), String> {
     let c = case_from_json(v);
-    let fails = check_case(&c);
+    let fails = quiet(|| check_case(&c));
     if fails.is_empty() { Ok(()) } else { Err(fails.iter().map(|f| format!("{}: {}", f.0, f.1)).collect::<Vec<_>>().join(" || ")) }
 }
